@@ -341,6 +341,7 @@ static uint64_t pay(uint64_t seed, int id, int k) { uint64_t x = seed ^ ((uint64
 
 static void check_specific(qitem *it) {
 	if (!(G->oracles & O_SPECIFIC)) return;
+	if (it->op->apply_auto) return;   // DISPATCH_APPLY_AUTO picks a root queue of its own choosing
 	for (int k = 0; k < 4; k++) {
 		void *want = NULL;
 		for (int q = it->q; q >= 0; q = Q[q].target) if (Q[q].spec[k]) { want = Q[q].spec[k]; break; }
@@ -349,7 +350,22 @@ static void check_specific(qitem *it) {
 		if (got != want)
 			h_viol("get-specific", "item %d (op #%d %s on q%d): dispatch_get_specific(key%d)=%p, model says %p", it->id, it->op_idx, opnames[it->opkind], it->q, k, got, want);
 	}
-	for (int q = it->q; q >= 0; q = Q[q].target) { dispatch_assert_queue(Q[q].q); RES.counters[QC_ASSERTS]++; }
+	for (int q = it->q; q >= 0; q = Q[q].target) {
+		dispatch_assert_queue(Q[q].q); RES.counters[QC_ASSERTS]++;
+		for (int k = 0; k < 4; k++) if (Q[q].spec[k] && dispatch_queue_get_specific(Q[q].q, &keys[k]) != Q[q].spec[k])
+			h_viol("get-specific", "dispatch_queue_get_specific(q%d, key%d) does not return the value that was set", q, k);
+	}
+	// a plain dispatch_sync runs on the calling thread: the submitting item's queues are still asserted
+	if ((it->opkind == OP_SYNC || it->opkind == OP_BARRIER_SYNC) && it->parent >= 0 && Q[it->q].kind != QK_MAIN)
+		for (int q = IT[it->parent].q; q >= 0; q = Q[q].target) if (Q[q].kind != QK_GLOBAL) { dispatch_assert_queue(Q[q].q); RES.counters[QC_ASSERTS]++; }
+	// queues outside both chains must be refused by dispatch_assert_queue_not's positive form
+	for (int q = 0; q < nq; q++) {
+		bool in = false;
+		for (int c = it->q; c >= 0; c = Q[c].target) if (c == q) in = true;
+		if (it->parent >= 0) for (int c = IT[it->parent].q; c >= 0; c = Q[c].target) if (c == q) in = true;
+		for (int p = it->parent; p >= 0 && !in; p = IT[p].parent) for (int c = IT[p].q; c >= 0; c = Q[c].target) if (c == q) in = true;
+		if (!in && Q[q].kind != QK_GLOBAL && Q[q].kind != QK_MAIN && it->client >= 0 && it->parent < 0 && !it->sync) { dispatch_assert_queue_not(Q[q].q); RES.counters[QC_ASSERTS]++; }
+	}
 }
 
 static void item_begin(qitem *it) {
